@@ -104,6 +104,7 @@ void adapter_exec(Ev *ev)
     k.nks = (int)ev->a[at++];
     for (int i = 0; i < k.nks && i < 64; i++) k.ks[i] = ev->a[at++];
     Source src; Sink snk;
+    memset(&src, 0xA5, sizeof src); memset(&snk, 0xA5, sizeof snk);     /* the init calls must set every field */
     if (sk == 1) octet_source_init(&src, src_octet, &s); else chunk_source_init(&src, src_chunk, &s);
     if (kk == 1) octet_sink_init(&snk, snk_octet, &k); else chunk_sink_init(&snk, snk_chunk, &k);
     budget = 0;
